@@ -68,9 +68,8 @@ def load_known():
 
 
 def key_matches(pattern, key):
-    if pattern.endswith("*"):
-        return key.startswith(pattern[:-1])
-    return key == pattern
+    import fnmatch
+    return fnmatch.fnmatchcase(key, pattern)
 
 
 def parse_fail_file(path):
